@@ -131,6 +131,25 @@ def check_case(case):
     for key in got:
         if key not in exp_keys:
             res.v(("C08.spurious-rail-row",), str(key))
+    # rail_rep(phase=p) lists exactly the rows of phase p of the all-phase report
+    if spec.get("phases"):
+        for ph in phases:
+            try:
+                r1, _ = quiet_call(s.rail_rep, phase=ph)
+            except Exception as e:
+                res.v(("C08.single-phase-raises", type(e).__name__), str(e))
+                continue
+            one = {}
+            for r in (r1.to_dict("records") if r1 is not None else []):
+                one[r["Rail"]] = r
+            allp = {k[1]: v for k, v in got.items() if k[0] == ph}
+            if set(one) != set(allp):
+                res.v(("C08.single-phase-rails",), "phase %r: %r vs %r" % (ph, sorted(one), sorted(allp)))
+            else:
+                for rail in one:
+                    for col in ("Voltage (V)", "Current (A)", "Power (W)", "Loss (W)"):
+                        if one[rail][col] != allp[rail][col]:
+                            res.v(("C08.single-phase-value", col), "phase %r rail %s: %r vs %r" % (ph, rail, one[rail][col], allp[rail][col]))
     return res
 
 
